@@ -297,4 +297,40 @@ theorem mgrInit_ok (P : Params) (hP : 0 < P.nl) (ctxs : Cid → Ctx D) (hc : ∀
   · intro c hl; exact absurd (hc c) hl
   · intro c; simp [mgrInit, List.count_replicate]
 
+/-! a context that holds a lane job keeps it unless it is the one handed back -/
+theorem retireMin_lane (f : D → Bytes → D) (all : Bool) (m : M D) (j : Cid)
+    (h : (m.ctxs j).lane ≠ none) :
+    ((retireMin f all m).1.ctxs j).lane ≠ none ∨ (retireMin f all m).2 = some j := by
+  rw [retireMin_eq]
+  cases hp : pickMin m (minLen m (occupied m)) (occupied m) with
+  | none => left; exact h
+  | some c =>
+    by_cases hjc : j = c
+    · right; rw [hjc]
+    · left; simp only [retire, hjc, if_false]; exact (ranCtxs_lane_ne f all m _ c j).mpr h
+
+theorem mgrSubmit_lane (f : D → Bytes → D) (m : M D) (c : Cid) (bs) (j : Cid) (hfree : m.free ≠ [])
+    (h : (m.ctxs j).lane ≠ none ∨ j = c) :
+    ((mgrSubmit f m c bs).1.ctxs j).lane ≠ none ∨ (mgrSubmit f m c bs).2 = some j := by
+  unfold mgrSubmit
+  cases hf : m.free with
+  | nil => exact absurd hf hfree
+  | cons i fr =>
+    simp only []
+    have hpl : ((placed m c bs i fr).ctxs j).lane ≠ none := by
+      by_cases hjc : j = c
+      · subst hjc; simp [placed]
+      · simp only [placed, hjc, if_false]; exact h.resolve_right hjc
+    split
+    · exact retireMin_lane f true _ j hpl
+    · left; exact hpl
+
+theorem mgrFlush_lane (P : Params) (f : D → Bytes → D) (m : M D) (j : Cid) (h : (m.ctxs j).lane ≠ none) :
+    ((mgrFlush P f m).1.ctxs j).lane ≠ none ∨ (mgrFlush P f m).2 = some j := by
+  unfold mgrFlush
+  simp only []
+  split
+  · left; exact h
+  · exact retireMin_lane f _ m j h
+
 end IsalVerif.HashMB
